@@ -231,9 +231,9 @@ def run_rest(ctx, PM, f, FLAG):
     # ---- C12.7 a connection that stays open goes on being served after a request whose body was not read: the drain takes exactly the bytes
     # owed, not the start of the next request (rules of C09.2)
     import drain_rules as DR
-    sk = shared.size_key_of(facts, ER)
+    sk = shared.size_init(facts, ER)
     ctx.require(sk is not None, "C12.7: remaining-size field of the length-limited reader")
-    DR.owed_rules(ctx, "C12.7", ER, (1, "*") + sk)
+    DR.owed_rules(ctx, "C12.7", ER, sk)
     return {}
 
 
@@ -297,6 +297,9 @@ def half_rules(ctx):
                 s0, s1 = origin_str(o0), origin_str(o1)
                 ok = (".1" in s0 and ".0" in s1) or (origin_fields(o0) == {"1"} and origin_fields(o1) == {"0"})
                 ctx.ob("C12.3", "accept-thread|halves-to-connection", "the connection gets the write half as its writer and the read half as its reader", ok, a.loc(bb), "%s / %s" % (s0, s1))
+        # (the constructor with the private constructors of its sub-structs spliced in)
+        import inline as _inl
+        cc_new = _inl.inlined(facts, cc_new.id, stop=lambda d: facts.fns[d].rec.get("local") and facts.fns[d].file != cc_new.file)
         bw = [(bb, t) for bb, t in cc_new.calls() if call_matches(t, r"BufWriter::<W>::with_capacity$|BufWriter::<W>::new$")]
         br = [(bb, t) for bb, t in cc_new.calls() if call_matches(t, r"BufReader::<R>::with_capacity$|BufReader::<R>::new$")]
         ok = len(bw) == 1 and len(br) == 1 and any(x == ("arg", 1) for x in origin_walk(cc_new.origin(bw[0][1]["args"][-1]))) and any(x == ("arg", 2) for x in origin_walk(cc_new.origin(br[0][1]["args"][-1])))
@@ -306,8 +309,15 @@ def half_rules(ctx):
     # body reader has let go of the socket reader, i.e. until the client has sent the rest of a body nobody reads; with the write handle still
     # alive during that wait the client sees no end-of-stream after the last response
     cfields = [x for x in facts.adt(CC)["variants"][0]["fields"]]
-    w_idx = [i for i, x in enumerate(cfields) if x["ty"].startswith(SWB + "<")]
-    blocking = [i for i, x in enumerate(cfields) if x["ty"].startswith(SR + "<")]
+    def holds(ty, what, depth=0):
+        """does a field of this type hold (directly, or inside a private struct of the crate) a value of type `what`?"""
+        if ty.startswith(what + "<"):
+            return True
+        a_ = facts.adts.get(re.sub(r"<.*$", "", ty))
+        return a_ is not None and a_["kind"] == "Struct" and depth < 3 and str(a_.get("file", "")).startswith("src/") and \
+            any(holds(y["ty"], what, depth + 1) for y in a_["variants"][0]["fields"])
+    w_idx = [i for i, x in enumerate(cfields) if holds(x["ty"], SWB)]
+    blocking = [i for i, x in enumerate(cfields) if holds(x["ty"], SR)]
     has_drop = facts.drop_fn(CC) is not None
     okd = len(w_idx) == 1 and all(w_idx[0] < b for b in blocking) and not has_drop
     ctx.ob("C12.3", "%s|write-handle-released-first" % CC, "when a connection ends, its handle on the write half is released before anything that may wait for the client (field order = drop order)", okd,
